@@ -54,7 +54,9 @@ Theorem C03_converged_no_write : forall rank c s o k oc a',
   oc_write oc = None /\ c_mem (oc_state oc) = a'.
 Proof. exact converged_no_write. Qed.
 
-(* Not proved: the same for a PreferDualStack Service that holds ONE address on
+(* (That the state a handler run leaves IS converged in this sense is the last section:
+   C03_second_call_writes_nothing.)
+   Not proved: the same for a PreferDualStack Service that holds ONE address on
    dual-stack cluster IPs (whether the other family can be gained depends on the
    allocator state; the first handler run that fails to gain it leaves a state
    in which it fails again - checked on the implementation at every quiescent
@@ -124,4 +126,57 @@ Proof.
   split; [|split; [|split; [exact E'|split; reflexivity]]].
   - split; [exists (Some 1); reflexivity|]. split; [eexists; split; [reflexivity|]; repeat split|apply Hs].
   - unfold sevs1. repeat (apply Forall_cons; [try exact I; try (intros H; discriminate H); try apply Hs|]). apply Forall_nil.
+Qed.
+
+
+(* ==== last clause: "no further status write after at most one normalising write" ==== *)
+From Verif Require Import Proofs.CtrlStarveP Proofs.CtrlTotalP Proofs.CtrlProgressP Proofs.CtrlExactP.
+
+(* C03_converged_no_write assumes a converged Service.  Composition: whatever state a
+   Service was in, the run of convergeBalancer AFTER a run finds exactly its own result and
+   leaves it - same status, same annotation, same recorded addresses - for every allocator
+   answer in both runs.  Hypotheses: no explicitly requested addresses (with them the first
+   run may leave a result the second rejects: F19 / F22, and the status may need the one
+   normalising re-ordering); the first run left an address; the Service cannot gain a second
+   family any more (two addresses, or not PreferDualStack on dual-stack cluster IPs). *)
+Theorem C03_second_run_is_fixpoint : forall rank a s o k v ok k2 v2 ok2,
+  minv a -> names_unique (s_pools a) -> pools_disjoint (by_name (s_pools a)) -> o_want o = WNone ->
+  converge rank a s o k = CR v ok -> cv_status v <> [] ->
+  additional_applies (o_req o) (cv_status v) = false ->
+  converge rank (cv_mem v) s (with_status o (cv_status v) (cv_annot v)) k2 = CR v2 ok2 ->
+  ok2 = true /\ cv_status v2 = cv_status v /\ cv_annot v2 = cv_annot v /\
+  same_ips (ips_of (cv_mem v2) s) (cv_status v).
+Proof. exact second_run_fixpoint. Qed.
+
+(* SetBalancer: the call after a call (whose write, if any, succeeded - or which had nothing
+   to write) attempts no status write *)
+Theorem C03_second_call_writes_nothing : forall rank c s o k oc k2 oc2,
+  c_have_pools c = true -> mem_inv c -> pools_wf c -> o_want o = WNone ->
+  set_balancer rank c s (Some o) k = Some oc ->
+  forall st an, (oc_write oc = Some (st, an) \/ (oc_write oc = None /\ st = o_status o /\ an = o_annot o)) ->
+  st <> [] -> additional_applies (o_req o) st = false ->
+  set_balancer rank (oc_state oc) s (Some (with_status o st an)) k2 = Some oc2 ->
+  oc_write oc2 = None.
+Proof. exact second_call_writes_nothing. Qed.
+
+(* what a run records in memory is exactly, in this order, the status it leaves *)
+Theorem C03_memory_is_exactly_the_written_status : forall rank s a o k v ok, o_want o = WNone ->
+  converge rank a s o k = CR v ok -> ips_of (cv_mem v) s = cv_status v.
+Proof. exact converge_exact. Qed.
+Print Assumptions C03_second_call_writes_nothing.
+
+(* the premises are met: a first call that allocates and writes an address *)
+Definition sctl : cstate := {| c_mem := {| s_pools := spools 1; allocated := [] |}; c_have_pools := true |}.
+Example C03_second_call_nonvacuous :
+  exists oc, c_have_pools sctl = true /\ mem_inv sctl /\ pools_wf sctl /\ o_want (sobj 80) = WNone /\
+    set_balancer srank sctl 2 (Some (sobj 80)) (sk (Some (1, [s4a]))) = Some oc /\
+    oc_write oc = Some ([s4a], Some 1) /\ additional_applies (o_req (sobj 80)) [s4a] = false /\
+    exists oc2, set_balancer srank (oc_state oc) 2 (Some (with_status (sobj 80) [s4a] (Some 1))) (sk None) = Some oc2.
+Proof.
+  destruct (set_balancer srank sctl 2 (Some (sobj 80)) (sk (Some (1, [s4a])))) as [oc|] eqn:E; [|vm_compute in E; discriminate].
+  exists oc. vm_compute in E. injection E as <-.
+  split; [reflexivity|]. split; [split; [split; [constructor|intros e1 e2 x []]|intros e []]|].
+  split; [split; [repeat constructor; intros []|intros p q x [<-|[]] [<-|[]] _ _; reflexivity]|].
+  split; [reflexivity|]. split; [reflexivity|]. split; [reflexivity|]. split; [reflexivity|].
+  eexists. vm_compute. reflexivity.
 Qed.
